@@ -149,7 +149,9 @@ def cuts_for(n, maxpieces):
 def plan(spec, tier):
     d = S.depth(spec)
     if tier == "quick":
-        return {"cap": 5 if d <= 2 else 4, "n": 2, "pieces": 2, "full1": True, "reps": ["rec"]}
+        # (a SparselyBin over further binning slices its input per bin: the dict-of-arrays form takes another code path)
+        nested_sparse = any(n["t"] == "SparselyBin" and n["v"]["t"] not in S.LEAF_TYPES for _, _, n in S.node_ids(spec))
+        return {"cap": 5 if d <= 2 else 4, "n": 2, "pieces": 2, "full1": True, "reps": ["rec", "dict"] if nested_sparse else ["rec"]}
     if d <= 2:
         reps = ["rec", "dict"] + (["df"] if "v" not in S.fields(spec) else [])
         return {"cap": 5, "n": 3, "pieces": 3, "full1": True, "reps": reps}
